@@ -24,7 +24,7 @@ CASES = [
  N("idle-watch-nested", CP, "        if self.idle and self.should_close:\n", "        if self.should_close and self.idle:\n", "operands of the idle watch swapped", ("C06",)),
  N("domain-lower-two-steps", CJ, "            domain = cookie[\"domain\"] = cookie[\"domain\"].lower()\n", "            cookie[\"domain\"] = cookie[\"domain\"].lower()\n            domain = cookie[\"domain\"]\n", "lower-casing and reading the Domain attribute in two statements", ("C16",)),
  N("setcookie-nested-else", CH, "            elif morsel_seen:\n                # Unknown attribute without a value, or a pair after an\n                # unparsable attribute - ignore it (RFC 6265 5.2)\n                continue\n            else:\n                # Invalid cookie string - no value for non-attribute\n                break\n", "            else:\n                if morsel_seen:\n                    # Unknown attribute without a value - ignore it (RFC 6265 5.2)\n                    continue\n                # Invalid cookie string - no value for non-attribute\n                break\n", "elif chain nested", ("C16",)),
- N("normalize-host-inline", UD, "        return self._normalize_host(host) == self._domain\n", "        normalized = self._normalize_host(host)\n        return normalized == self._domain\n", "intermediate local", ("C14",)),
+ N("normalize-host-inline", UD, "        return self._normalize_host(host, default_port) == self._domain\n", "        normalized = self._normalize_host(host, default_port)\n        return normalized == self._domain\n", "intermediate local", ("C14",)),
  N("closing-flag-early-return", SV, "        self._connections[handler] = transport\n        if self._closing:\n", "        self._connections[handler] = transport\n        if self._closing is True:\n", "explicit comparison with True", ("C20",)),
  N("proxy-creds-loop-unrolled", CL, "            for name in (hdrs.AUTHORIZATION, hdrs.COOKIE):\n                if name not in explicit_proxy_headers:\n                    resolved_proxy_headers.popall(name, None)\n", "            if hdrs.AUTHORIZATION not in explicit_proxy_headers:\n                resolved_proxy_headers.popall(hdrs.AUTHORIZATION, None)\n            if hdrs.COOKIE not in explicit_proxy_headers:\n                resolved_proxy_headers.popall(hdrs.COOKIE, None)\n", "loop over the two credential headers unrolled", ("C17",)),
  N("ws-bytelen-bytes", WW, "        if isinstance(message, memoryview) and message.nbytes != len(message):\n            # len() counts items, the frame lengths below are byte counts\n            message = message.cast(\"B\")\n", "        if isinstance(message, memoryview) and message.nbytes != len(message):\n            # len() counts items, the frame lengths below are byte counts\n            message = bytes(message)\n", "copy instead of re-shape", ("C11",)),
